@@ -79,8 +79,14 @@ class Sync:
 
   def node_notifies(self, node: cfgm.Node, fi: FuncInfo, lock: str,
                     binding: dict[str, str] | None = None,
-                    need_all: bool = False, depth: int = 0) -> bool:
-    """True if executing `node` normally always notifies `lock`."""
+                    need_all: bool = False, depth: int = 0,
+                    assume_true: tuple[str, ...] = ()) -> bool:
+    """True if executing `node` normally always notifies `lock`.
+
+    `assume_true` names self-attributes/properties known to be truthy on the
+    queried path (e.g. enqueue_done once _exception is set); branches testing
+    them are pruned inside callees.
+    """
     if self.direct_notify(node, fi, lock, binding, need_all):
       return True
     if depth > 4:
@@ -110,16 +116,18 @@ class Sync:
           if lid:
             cb[k.arg] = lid
       env = const_env_for_call(x, callee)
-      if self.fn_must_notify(eff, lock, cb, env, need_all, depth + 1):
+      if self.fn_must_notify(eff, lock, cb, env, need_all, depth + 1,
+                             assume_true):
         return True
     return False
 
   def fn_must_notify(self, fi: FuncInfo, lock: str, binding: dict[str, str],
-                     env: dict[str, object], need_all: bool, depth: int = 0
-                     ) -> bool:
+                     env: dict[str, object], need_all: bool, depth: int = 0,
+                     assume_true: tuple[str, ...] = ()) -> bool:
     key = (fi.module.name, fi.qualname, fi.cls.name if fi.cls else None, lock,
            tuple(sorted(binding.items())),
-           tuple(sorted((k, repr(v)) for k, v in env.items())), need_all)
+           tuple(sorted((k, repr(v)) for k, v in env.items())), need_all,
+           assume_true)
     if key in self._memo:
       return self._memo[key]
     self._memo[key] = False  # recursion guard
@@ -127,9 +135,19 @@ class Sync:
     ok_edges = prune_by_consts(env)
 
     def edge_ok(n, m, lab):
-      return lab not in ('exc', 'close') and ok_edges(n, m, lab)
+      if lab in ('exc', 'close') or not ok_edges(n, m, lab):
+        return False
+      if assume_true and n.kind == 'cond' and lab in ('true', 'false'):
+        t, neg = n.ast, False
+        if isinstance(t, ast.UnaryOp) and isinstance(t.op, ast.Not):
+          t, neg = t.operand, True
+        if (isinstance(t, ast.Attribute) and isinstance(t.value, ast.Name)
+            and t.value.id == 'self' and t.attr in assume_true):
+          return (lab == 'true') != neg
+      return True
 
-    through = lambda n: self.node_notifies(n, fi, lock, binding, need_all, depth)
+    through = lambda n: self.node_notifies(n, fi, lock, binding, need_all,
+                                           depth, assume_true)
     w = g.must_pass(g.entry, [g.exit_ret], through, edge_ok)
     res = w is None
     self._memo[key] = res
